@@ -52,6 +52,8 @@ Section Sums.
     match l with [] => nofZ N 1 | x :: r => nmul N x (prod_list r) end.
   Definition sum_over {B : Type} (l : list B) (f : B -> A) : A := sum_list (map f l).
   Definition prod_over {B : Type} (l : list B) (f : B -> A) : A := prod_list (map f l).
+  Fixpoint map2 {B C D : Type} (f : B -> C -> D) (l1 : list B) (l2 : list C) : list D :=
+    match l1, l2 with x :: r1, y :: r2 => f x y :: map2 f r1 r2 | _, _ => [] end.
   Definition delta (i j : nat) : A := if Nat.eqb i j then nofZ N 1 else nofZ N 0.
   (* index of the first minimal element (numpy argmin), and first maximal (argmax) *)
   Fixpoint argmin_from (best : A) (ibest i : nat) (l : list A) : nat :=
